@@ -2,6 +2,8 @@ import BoltonsVerif.C01.Proofs
 import BoltonsVerif.C01.ConcreteProofs
 import BoltonsVerif.C01.OwnProofs
 import BoltonsVerif.C01.Natural
+import BoltonsVerif.C01.KeyNatural
+import BoltonsVerif.C01.Iter
 import BoltonsVerif.Generated.C01_Effects
 /-
 C01 — property theorems for the OrderedMultiDict model (statements, short derivations from
@@ -557,6 +559,42 @@ theorem alias_objects_do_not_matter {KO : Type} (ops : List (HOp K (KO × V))) :
       (hrun (HState.init : HState K (KO × V)) ops).map (fun r => (mapSt Prod.snd (absH r.1), r.2.mapV Prod.snd)) :=
   values_are_opaque Prod.snd ops
 
+/-- keys are only ever compared for equality: renaming the keys of a whole history by any INJECTIVE
+    function renames every pair list reached and every return value and changes nothing else (no
+    operation depends on an order, a hash or anything else about a key than which keys it equals) -/
+theorem keys_are_only_compared {K' : Type} [DecidableEq K'] (g : K → K') (hg : Function.Injective g)
+    (ops : List (HOp K V)) :
+    (hrun (HState.init : HState K' V) (ops.map (HOp.mapK g))).map (fun r => (absH r.1, r.2)) =
+      (hrun (HState.init : HState K V) ops).map (fun r => (mapStK g (absH r.1), r.2.mapK g)) := by
+  rw [refines_history]
+  have h := spec_hrun_key_natural g hg ops ⟨[], []⟩
+  have e : mapStK g (⟨[], []⟩ : Spec.HState K V) = ⟨[], []⟩ := rfl
+  rw [e] at h
+  rw [h, ← refines_history, List.map_map]
+  rfl
+
+/-! ## generators paused while the dictionary changes (pointer level) -/
+
+/-- a generator of `iteritems(multi=True)` / `iterkeys(multi=True)` / `itervalues(multi=True)` that is
+    paused at a cell which is (still) linked goes on with exactly the cells that come after that cell
+    in the list AS IT IS NOW - whatever happened to the dictionary since the generator was made
+    (every public operation keeps `PInv`: `index_exact_history`) -/
+theorem paused_generator_continues (l : PL K V) (h : PInv l) (A B : List Nat) (c : Nat)
+    (e : l.ids = A ++ c :: B) : l.rest c = c :: B := rest_of_linked (e ▸ h.shape)
+
+/-- … so a pair added meanwhile is still visited, at the end -/
+theorem paused_generator_sees_insert (l : PL K V) (h : PInv l) (A B : List Nat) (c : Nat)
+    (e : l.ids = A ++ c :: B) (k : K) (v : V) : (l.insert k v).rest c = c :: B ++ [l.fresh] := by
+  have e' : (l.insert k v).ids = A ++ c :: (B ++ [l.fresh]) := by rw [ids_insert h, e]; simp
+  exact paused_generator_continues _ (pinsert_spec h k v).1 A (B ++ [l.fresh]) c e'
+
+/-- … and when the very cell it is paused at is unlinked (`cell[PREV][NEXT], cell[NEXT][PREV] =
+    cell[NEXT], cell[PREV]` leaves the cell's own fields alone), it yields that stale pair once more and
+    then goes on with the cells that came after it -/
+theorem paused_generator_survives_unlink (n p : Ptrs) (A B : List Nat) (c : Nat) (h : Shape n p (A ++ c :: B))
+    (fuel : Nat) (hl : B.length < fuel) : walk (unlinkP c (n, p)).1 (fuel + 1) c = c :: B :=
+  walk_from_unlinked h fuel (by omega)
+
 /-! ## list objects: what the dictionary keeps and what the caller holds -/
 
 /-- in every state reached by any history of operations that create, store or hand out list objects
@@ -814,5 +852,13 @@ example : (hrun (HState.init : HState Nat (Nat × Nat)) [.add 1 (10, 5), .add 2 
       (fun r => (mapSt Prod.snd (absH r.1)).s) = [[(1, 5)], [(1, 5), (2, 6)], [(2, 6), (1, 7)], [(2, 6)]] ∧
     (hrun (HState.init : HState Nat Nat) ([HOp.add 1 (10, 5), .add 2 (20, 6), .setitem 1 (11, 7), .poplast none false].map
       (HOp.mapV Prod.snd))).map (fun r => r.1.s.cells) = [[(1, 5)], [(1, 5), (2, 6)], [(2, 6), (1, 7)], [(2, 6)]] := by decide
+
+/-- an injective renaming of keys (`keys_are_only_compared`) -/
+example : Function.Injective (fun k : Nat => k + 10) := fun a b h => by simpa using h
+/-- a generator paused at the second of three cells (ids 1, 2, 3): it goes on with 2, 3; after `add` it also meets the new
+    cell 4; the hypotheses `PInv` / `l.ids = A ++ c :: B` hold for that heap -/
+example : let l : PL Nat Nat := ((hrun3 HState3.init [.new (some (.pairs [(0, 0), (1, 1), (0, 2)])) []]).map (·.1.s.ll)).headD PL.empty
+    l.ids = [1] ++ 2 :: [3] ∧ l.rest 2 = [2, 3] ∧ (l.insert 5 5).rest 2 = [2, 3, 4] ∧
+    walk (unlinkP 2 (l.nxt, l.prv)).1 l.fresh 2 = [2, 3] := by decide
 
 end C01
